@@ -203,3 +203,83 @@ def ids(msg):
 REF_ACTIONS = {'addToHead': 0, 'addToTail': 1, 'addBefore': 2, 'addAfter': 3, 'addReplace': 4,
                'head': 0, 'tail': 1, 'before': 2, 'after': 3, 'replace': 4,
                'h': 0, 't': 1, 'b': 2, 'a': 3, 'r': 4, 0: 0, 1: 1, 2: 2, 3: 3, 4: 4}
+
+
+# ---------------------------------------------------------------------------------------
+# Argument ORDER where the reference distinguishes positions of same-typed fields.  For an
+# op of the client API with named parameters, the fixed-position prefix of the command the
+# reference prescribes (written from the parameter names of the reference, independently of the
+# Coq model and of the library).  `ids` gives the numbers of the client objects involved.
+
+def flag(b):
+    return 1 if b else 0
+
+
+def expected_prefix(op, ids):
+    """-> (address, [values...]) the command must start with, or None when the op is not covered.
+    ids: dict with 'buf' (bufnum of op['b']), 'dst', 'frames' (frames of the buffer object), 'node', 'target',
+    'group', 'bus', 'bus_channels', 'nodes' as far as they apply."""
+    o = op['op']
+    b = ids.get('buf')
+    if o == 'b_copy_data':       # /b_gen dst "copy" dstStartFrame srcBuf srcStartFrame numFrames
+        return '/b_gen', [ids['dst'], 'copy', op['dst_start'], b, op['start'], op['n']]
+    if o == 'b_read':            # /b_read buf path fileStartFrame numFrames bufStartFrame leaveOpen
+        return '/b_read', [b, op['path'], op['fstart'], op['frames'], op['bstart'], flag(op['leave_open'])]
+    if o == 'b_read_channel':
+        return '/b_readChannel', [b, op['path'], op['fstart'], op['frames'], op['bstart'], flag(op['leave_open'])] + list(op['chans'])
+    if o == 'b_cue':             # cue = read numFrames(buffer) from startFrame into frame 0, leave open
+        return '/b_read', [b, op['path'], op['start'], ids['frames'], 0, 1]
+    if o == 'b_write':           # /b_write buf path header sample numFrames startFrame leaveOpen
+        return '/b_write', [b, op['path'], op['header'], op['sample'], op['frames'], op['start'], flag(op['leave_open'])]
+    if o == 'b_alloc_read':      # /b_allocRead buf path startFrame numFrames
+        return '/b_allocRead', [b, op['path'], op['start'], op['frames']]
+    if o == 'b_alloc_read_channel':
+        return '/b_allocReadChannel', [b, op['path'], op['start'], op['frames']] + list(op['chans'])
+    if o == 'b_new_read':
+        return '/b_allocRead', [b, op['path'], op['start'], op['frames']]
+    if o == 'b_new_read_channel':
+        return '/b_allocReadChannel', [b, op['path'], op['start'], op['frames']] + list(op['chans'])
+    if o == 'b_new':
+        if not op.get('alloc', True):
+            return None
+        return '/b_alloc', [b, op['frames'], op['channels']]
+    if o == 'b_new_cue':
+        return '/b_alloc', [b, op['size'], op['channels']]
+    if o == 'b_get':
+        return '/b_get', [b, op['index']]
+    if o == 'b_getn':
+        return '/b_getn', [b, op['index'], op['count']]
+    if o == 'bus_fill':          # /c_fill index numBuses value
+        return '/c_fill', [ids['bus'], op['channels']]
+    if o == 'bus_clear':
+        return '/c_fill', [ids['bus'], ids['bus_channels'], 0]
+    if o == 'bus_getn':
+        return '/c_getn', [ids['bus'], op['count'] if op['count'] is not None else ids['bus_channels']]
+    if o == 'n_move_before':     # /n_before: node to move, node to move it before
+        return '/n_before', [ids['node'], ids['target']]
+    if o == 'n_move_after':
+        return '/n_after', [ids['node'], ids['target']]
+    if o == 'n_move_to_head':    # /g_head: group, node
+        return '/g_head', [ids['group'], ids['node']]
+    if o == 'n_move_to_tail':
+        return '/g_tail', [ids['group'], ids['node']]
+    if o == 's_reorder':         # /n_order addAction target nodes...
+        return '/n_order', [REF_ACTIONS[op['action']], ids['target']] + list(ids['nodes'])
+    return None
+
+
+def plain_values(msg, n):
+    """first n wire arguments as Python values (None for anything that is not int / float-int / str)"""
+    out = []
+    for a in msg[1][:n]:
+        if a[0] == 'i':
+            out.append(a[1])
+        elif a[0] == 's':
+            out.append(a[1])
+        elif a[0] == 'f':
+            from fractions import Fraction
+            fr = Fraction(a[1])
+            out.append(int(fr) if fr.denominator == 1 else float(fr))
+        else:
+            out.append(None)
+    return out
